@@ -81,8 +81,26 @@ func (g *wireGen) u64() uint64 {
 	}
 }
 
+// regexName is a wallet followed by an account pattern assembled from regular-expression fragments (the
+// account part of a listing path is a pattern): valid, invalid and nearly valid ones.
+func (g *wireGen) regexName() string {
+	ch := g.rc.Ch
+	toks := []string{"Account ", "1", ".*", "\\$", "$", "^", "\\Q", "\\E", "(", ")", "(?:", "[", "]", "|", "\\", "{2}", "{1001}", "*", "+", "?",
+		"(?i)", "\\z", "\\pN", "[[:alpha:]]", "\\x{10FFFF}", "(?P<n>", "[^", "\\C", "\xff", "/", "\\b", "[0-9]"}
+	n := 1 + ch.Pick(6, 0)
+	s := ""
+	for i := 0; i < n; i++ {
+		s += toks[ch.Pick(len(toks), 0)]
+	}
+	return []string{"Wallet 1/", "Wallet 2/", "/", "Unknown/"}[ch.Pick(4, 0)] + s
+}
+
 func (g *wireGen) accountName() string {
 	ch := g.rc.Ch
+	if ch.Pick(6, 0) == 5 {
+		g.rc.Stats.Inc("probe_pattern_fragments_in_name", 1)
+		return g.regexName()
+	}
 	switch ch.Pick(12, 0) {
 	case 0:
 		return ""
